@@ -5,6 +5,7 @@ package main
 import (
 	"fmt"
 	"go/token"
+	"os"
 	"sort"
 	"strings"
 	"time"
@@ -24,6 +25,7 @@ type Config struct {
 	MaxViolPerID    int
 	Bounds          map[string]int
 	NoMerge         bool
+	EagerFeas       bool
 	Trace           bool
 	SolverLog       string
 	Deadline        time.Time
@@ -75,6 +77,7 @@ type HarnessReport struct {
 	Wall          time.Duration
 	SolverStats   SolverStats
 	PathBudgetHit bool
+	InfeasiblePaths int
 	Merged        int
 	Bounds        map[string]int
 	Assumes       map[string]int
@@ -103,6 +106,7 @@ type Engine struct {
 	allocLog            []*Term
 	globalOf            map[*Object]*ssa.Global
 	lenient             bool
+	curWhere            string
 	fmtDeps             map[string][]*Term
 }
 
@@ -181,7 +185,11 @@ func (e *Engine) feasible(st *State, extra *Term) bool {
 		return false
 	}
 	e.sync(st.pc)
+	t0 := time.Now()
 	r := e.solver.CheckWith(extra)
+	if d := time.Since(t0); d > 2*time.Second && os.Getenv("VP_SLOW") != "" {
+		fmt.Printf("SLOW feasibility %.1fs %v at %s (term size %d, pc depth %d)\n", d.Seconds(), r, e.curWhere, extra.size, st.pc.depth())
+	}
 	if r == Unknown {
 		e.rep.Unknowns++
 		return true
@@ -301,7 +309,11 @@ func (e *Engine) obligation(st *State, cond *Term, kind, id string, instr ssa.In
 	neg := e.tm.Not(cond)
 	e.solver.Push()
 	e.solver.Assert(neg)
+	t0 := time.Now()
 	r := e.solver.Check()
+	if d := time.Since(t0); d > 2*time.Second && os.Getenv("VP_SLOW") != "" {
+		fmt.Printf("SLOW obligation %.1fs %v %s:%s (term size %d, pc depth %d)\n", d.Seconds(), r, kind, id, cond.size, st.pc.depth())
+	}
 	switch r {
 	case Unsat:
 		e.rep.Discharged++
@@ -427,6 +439,7 @@ type branch struct {
 	st    *State // nil => derive from the current state with cond assumed
 	cond  *Term
 	apply func(fr *Frame, st *State)
+	lazy  bool // forward branch: feasibility need not be decided now
 }
 
 type stepResult struct {
@@ -501,6 +514,12 @@ func (e *Engine) runPath(fr *Frame, st *State, stack *[]work) (Outcome, bool) {
 			for _, b := range res.branches {
 				if b.st != nil {
 					live = append(live, b)
+					continue
+				}
+				if b.lazy && !e.cfg.EagerFeas {
+					if !b.cond.IsFalse() {
+						live = append(live, b)
+					}
 					continue
 				}
 				if e.feasible(st, b.cond) {
@@ -581,7 +600,11 @@ func (e *Engine) RunHarness(fn *ssa.Function, caseIdx int) *HarnessReport {
 
 // finishPath is called for every path that reaches the end of the harness.
 func (e *Engine) finishPath(st *State) {
-	// run goroutines that were spawned lazily and never waited for
+	e.sync(st.pc)
+	if r := e.solver.Check(); r == Unsat {
+		e.rep.InfeasiblePaths++
+		return
+	}
 	e.rep.Paths++
 	if e.rep.Paths > e.cfg.MaxPaths {
 		e.rep.PathBudgetHit = true
